@@ -100,9 +100,18 @@ pub fn gen_workload(sub: u64) -> Workload {
         let ext = match (kind.as_str(), through_child) {
             ("pre-glob", true) | ("pre-glob-negated", true) => "sel",
             ("zstub", true) => ["gz", "bz2", "xz"][rng.below(3)],
-            ("zreal", true) => ["gz", "bz2", "xz"][rng.below(3)],
+            ("zreal", true) => {
+                // only tools that exist on this machine (gzip is part of the base system)
+                let have: Vec<&str> = ["gz", "bz2", "xz"].into_iter().filter(|e| std::path::Path::new(real_tool(e).1).exists()).collect();
+                if have.is_empty() {
+                    "txt"
+                } else {
+                    have[rng.below(have.len())]
+                }
+            }
             _ => "txt",
         };
+        let through_child = through_child && !(kind == "zreal" && ext == "txt");
         let fate = if !through_child || kind == "zreal" {
             Fate::Clean
         } else if early {
@@ -190,7 +199,7 @@ pub fn run_workload(sub: u64, acc: &mut Acc, ctx: &Ctx, _thorough: bool) {
         std::fs::create_dir_all(sp.parent().unwrap()).unwrap();
         let rp = root.join(&f.path);
         std::fs::create_dir_all(rp.parent().unwrap()).unwrap();
-        if w.kind == "zreal" && f.through_child {
+        if w.kind == "zreal" && f.through_child && !f.path.ends_with(".txt") {
             // compress with the real tool; sometimes truncate the archive
             let ext = f.path.rsplit('.').next().unwrap().to_string();
             let (_, tool) = real_tool(&ext);
